@@ -45,6 +45,8 @@ def run(ck, rng, tier):
         noise = rng.choice((0.0, 0.0, 0.1, 2.0))
         if c in (5, 6):     # object counts one above a multiple of 32 (33, 65), noisy data
             n, noise, cond = (33, 65)[c - 5], 0.5, 10.0
+        if c == 7:
+            noise, cond = 0.4, min(cond, 100.0)
         far = c in (1, 2) or (thorough and c % 20 == 7)
         if far:  # noisy responses far from the origin (offset 3e5..3e6 spreads): TSS must be taken about the mean
             noise, cond = 0.3, min(cond, 10.0)
@@ -58,6 +60,12 @@ def run(ck, rng, tier):
             ux, uy = rng.choice((1e6, 1e5)), rng.choice((1e-6, 1e-7))
             X, Y, Xnew = X * ux, Y * uy, Xnew * ux
             ck.count("predictors in units of %g, responses in units of %g" % (ux, uy))
+        if c == 7:
+            # responses in units of 1e-7 whose column sums lie inside (-1e-6, 1e-6) although their means are not negligible
+            # against their spread: MLR takes the response means from MatrixColAverage (known finding, zero-sum window)
+            Y = (Y - Y.mean(axis=0)) / (Y.std(axis=0) + 1e-300) * 1e-7
+            Y = Y + np.array([rng.choice((6e-7, -5e-7, 8e-7)) for _ in range(ny)]) / n
+            ck.count("response sums inside the zero-sum window")
         if c == 4:
             # responses beyond the range of single precision (units of 1e40): ordinary doubles
             Y = Y * 1e40
@@ -143,6 +151,11 @@ def run(ck, rng, tier):
             r2 = np.array(o["r2"])
             if bad is None and (np.abs(r2 - (1 - rss / tss)) > 1e-7).any():
                 bad = ("r2_formula", "reported R2 %s vs 1 - RSS/TSS %s" % (r2, 1 - rss / tss))
+                inwin = np.abs(Y.sum(axis=0)) < 1e-6
+                tss0 = np.where(inwin, (Y ** 2).sum(axis=0), tss)
+                if inwin.any() and (np.abs(r2 - (1 - rss / tss0)) <= 1e-7).all():
+                    # explained entirely by response means stored as 0: the zero-sum window of MatrixColAverage
+                    bad = ("r2_response_sum_inside_zero_window", "reported R2 %s vs 1 - RSS/TSS %s: the response columns with sums %s inside (-1e-6, 1e-6) got the mean 0" % (r2, 1 - rss / tss, Y.sum(axis=0)[inwin]))
             if bad is None and ((r2 < -1e-9) | (r2 > 1 + 1e-9)).any():
                 bad = ("r2_range", "R2 outside [0,1]: %s" % r2)
             if bad is None and (np.abs(np.array(o["sdec"]) - np.sqrt(rss / n)) > 1e-7 * (1 + np.sqrt(rss / n)) + 1e-9 * np.abs(Y).max()).any():
